@@ -1,7 +1,16 @@
 #!/bin/bash
-# Runs the repository's own test suite with the HEX_VERIF guard OFF (the default build).
+# Runs the repository's own unit-test suite (the 129 baseline cases) with the
+# HEX_VERIF guard OFF, i.e. the default CMake build, in a build directory of
+# ours (/repo/_build is tracked by the snapshot commit and is left alone).
 set -e
-B=${VERIF_BASELINE_BUILD:-/repo/_build}
-cmake -G Ninja -S /repo -B "$B" -DCMAKE_BUILD_TYPE=RelWithDebInfo -DCMAKE_CXX_FLAGS=-Wno-error >/dev/null
+V=$(cd "$(dirname "$0")/.." && pwd)
+R=${VERIF_REPO:-/repo}
+B=${VERIF_BASELINE_BUILD:-$V/build/baseline}
+mkdir -p "$B"
+cmake -G Ninja -S "$R" -B "$B" -DCMAKE_BUILD_TYPE=RelWithDebInfo -DCMAKE_CXX_FLAGS=-Wno-error >/dev/null
 cmake --build "$B" -j 16 >/dev/null
-ctest --test-dir "$B" -j8 --timeout 900 "$@"
+n=$(cd "$B/tests/unit" && ./UnitTests --list_content 2>&1 | grep -c '^        ' || true)
+echo "unit test cases listed: $n"
+# 'tests' (tests/tests.py) needs installed binaries and fails in the pinned baseline too (always_fail).
+ctest --test-dir "$B" -R UnitTests --timeout 900 --output-on-failure "$@"
+(cd "$B/tests/unit" && ./UnitTests --report_level=short 2>&1 | tail -4)
